@@ -167,7 +167,10 @@ func (s *pyrSess) open() []*pyrVer {
 }
 
 // writeBlocks: ingest or mutate a set of blocks (one POST per block) with generated supervoxel content
-func (s *pyrSess) writeBlock(p *pyrVer, bx, by, bz int) {
+func (s *pyrSess) writeBlock(p *pyrVer, bx, by, bz int) { s.writeBlockMode(p, bx, by, bz, -1) }
+
+// writeBlockMode: mode -1 draws the content pattern; mode 4 writes label 0 over the whole block (an erase)
+func (s *pyrSess) writeBlockMode(p *pyrVer, bx, by, bz, forced int) {
 	r := s.r
 	blk := make([]uint64, c14B*c14B*c14B)
 	nsv := 1 + r.Intn(4)
@@ -177,6 +180,9 @@ func (s *pyrSess) writeBlock(p *pyrVer, bx, by, bz int) {
 		s.nextSV++
 	}
 	mode := r.Intn(4)
+	if forced >= 0 {
+		mode = forced
+	}
 	cut := [3]int{4 + r.Intn(24), 4 + r.Intn(24), 4 + r.Intn(24)}
 	for z := 0; z < c14B; z++ {
 		for y := 0; y < c14B; y++ {
@@ -207,6 +213,7 @@ func (s *pyrSess) writeBlock(p *pyrVer, bx, by, bz int) {
 					if z%7 == 0 {
 						sv = 0
 					}
+				case 4: // erase
 				default:
 					if r.Chance(0.8) {
 						sv = svs[r.Intn(nsv)]
@@ -248,6 +255,48 @@ func (s *pyrSess) writeBlock(p *pyrVer, bx, by, bz int) {
 	if bx < 0 || by < 0 || bz < 0 {
 		s.c.Count("write-negative-block")
 	}
+}
+
+// eraseEpisode: fill a whole level-1 block (aligned 2x2x2 group) and the neighbouring group with data, then write label 0 over the first group — block by block, or in one request — so that a
+// lower-resolution block turns blank while its siblings keep data
+func (s *pyrSess) eraseEpisode(p *pyrVer) {
+	gx, gy, gz := c14Lo/2+s.r.Intn(c14NB/2), c14Lo/2+s.r.Intn(c14NB/2), c14Lo/2+s.r.Intn(c14NB/2)
+	sib := [3]int{gx, gy, gz}
+	ax := s.r.Intn(3)
+	sib[ax] = c14Lo/2 + ((sib[ax] - c14Lo/2) ^ 1) // the other group of the region along one axis
+	for _, g := range [][3]int{{gx, gy, gz}, sib} {
+		for o := 0; o < 8; o++ {
+			s.writeBlockMode(p, 2*g[0]+o%2, 2*g[1]+(o/2)%2, 2*g[2]+o/4, 1+s.r.Intn(3))
+		}
+	}
+	s.settle()
+	s.checkPyramid(p)
+	if s.r.Bool() {
+		for o := 0; o < 8; o++ {
+			s.writeBlockMode(p, 2*gx+o%2, 2*gy+(o/2)%2, 2*gz+o/4, 4)
+		}
+		s.c.Count("erase-group-blockwise")
+	} else {
+		n := 2 * c14B
+		path := fmt.Sprintf("node/%s/lm/raw/0_1_2/%d_%d_%d/%d_%d_%d?mutate=true", p.uuid, n, n, n, 2*gx*c14B, 2*gy*c14B, 2*gz*c14B)
+		rr := Post(path, make([]byte, n*n*n*8))
+		s.log("POST raw zeros over blocks (%d..%d,%d..%d,%d..%d) mutate=true at v%d -> %d", 2*gx, 2*gx+1, 2*gy, 2*gy+1, 2*gz, 2*gz+1, p.v, rr.Code)
+		if !rr.OK() {
+			s.c.Report("O", "C14 write-fails", "a block write fails: "+rr.String(), s.history())
+			return
+		}
+		ox, oy, oz := (2*gx-c14Lo)*c14B, (2*gy-c14Lo)*c14B, (2*gz-c14Lo)*c14B
+		for z := 0; z < n; z++ {
+			for y := 0; y < n; y++ {
+				for x := 0; x < n; x++ {
+					p.vox[((oz+z)*c14N+oy+y)*c14N+ox+x] = 0
+				}
+			}
+		}
+		s.c.Count("erase-group-one-request")
+	}
+	s.settle()
+	s.checkPyramid(p)
 }
 
 func (s *pyrSess) splitSV(p *pyrVer) bool {
@@ -345,6 +394,9 @@ func runC14(c *Ctx) {
 			}
 			c.Count(fmt.Sprintf("max-level-%d", s.maxLvl))
 			s.vers = []*pyrVer{{uuid: s.root, v: 1, vox: make([]uint64, c14N*c14N*c14N)}}
+			if si >= 1 || c.Thorough {
+				s.eraseEpisode(s.vers[0])
+			}
 			for i := 0; i < steps; i++ {
 				o := s.open()
 				if len(o) == 0 || s.wedged {
@@ -355,7 +407,21 @@ func runC14(c *Ctx) {
 				case k < 6:
 					// a set of blocks: one octant of a parent, all eight, or scattered
 					var coords [][3]int
-					switch s.r.Intn(3) {
+					forced := -1
+					switch s.r.Intn(4) {
+					case 3:
+						// erase: label 0 over a whole level-1 block (an aligned 2x2x2 group) or over one block,
+						// next to siblings that keep their data
+						forced = 4
+						px, py, pz := c14Lo/2+s.r.Intn(c14NB/2), c14Lo/2+s.r.Intn(c14NB/2), c14Lo/2+s.r.Intn(c14NB/2)
+						if s.r.Bool() {
+							for o := 0; o < 8; o++ {
+								coords = append(coords, [3]int{2*px + o%2, 2*py + (o/2)%2, 2*pz + o/4})
+							}
+						} else {
+							coords = append(coords, [3]int{c14Lo + s.r.Intn(c14NB), c14Lo + s.r.Intn(c14NB), c14Lo + s.r.Intn(c14NB)})
+						}
+						s.c.Count("erase")
 					case 0:
 						coords = append(coords, [3]int{c14Lo + s.r.Intn(c14NB), c14Lo + s.r.Intn(c14NB), c14Lo + s.r.Intn(c14NB)})
 					case 1:
@@ -369,7 +435,7 @@ func runC14(c *Ctx) {
 						}
 					}
 					for _, bc := range coords {
-						s.writeBlock(p, bc[0], bc[1], bc[2])
+						s.writeBlockMode(p, bc[0], bc[1], bc[2], forced)
 					}
 				case k < 8:
 					if !s.splitSV(p) {
